@@ -4,6 +4,7 @@
 mod asm;
 mod proj;
 mod streams;
+mod fstreams;
 
 use fbh::report::Report;
 use fbh::Ctx;
